@@ -1563,7 +1563,6 @@ def _tool_formula(tool, args, stdin=None):
     finally:
         sys.stdout, sys.stderr, sys.stdin = old
         _reset_cli_state()
-        gc.collect()            # the handles argparse opened are never closed by the tools
 
 
 def _stdout_reading(out, code, err, what, data):
@@ -1604,10 +1603,11 @@ def run_reader_bytes(case):
     labels = ['bytes', 'bytes-mode-' + bmode]
     for o in case.get('origin', []):
         labels.append('bytes-' + o)
-    tmp = _tmpdir()
+    os.makedirs(TMPBASE, exist_ok=True)
+    fd, path = tempfile.mkstemp(prefix='c06-', suffix='.cnf', dir=TMPBASE)
+    exc = None
     try:
-        path = os.path.join(tmp, 'input.cnf')
-        with open(path, 'wb') as f:
+        with os.fdopen(fd, 'wb') as f:
             f.write(data)
         if bmode.startswith('name-'):
             what = "[{}] file given by name".format(bmode)
@@ -1625,7 +1625,6 @@ def run_reader_bytes(case):
                 args = ['-q', 'dimacs', path] if tool == 'cnfgen' else SHUFFLE_FIXED + ['-i', path]
                 if bmode.endswith('-main'):
                     r = vcli.run_main(tool, args)
-                    gc.collect()
                     if r.exc is not None:
                         raise Violation("{}: {} escapes from main(): {}; bytes={!r}".format(
                             what, type(r.exc).__name__, str(r.exc)[:160], data[:300]))
@@ -1703,7 +1702,7 @@ def run_reader_bytes(case):
         else:
             raise KeyError(bmode)
     finally:
-        shutil.rmtree(tmp, ignore_errors=True)
+        os.unlink(path)
     has_p = b'p' in data
     ntok = sum(len(ln.split()) for ln in data.split(b'\n') if ln.strip()[:1] not in (b'c', b'p', b''))
     return Outcome(labels=labels, nontrivial=has_p and ntok >= 1, rejected=exc is not None)
@@ -1714,7 +1713,7 @@ def run_reader_bytes(case):
 BYTE_DOCS = [
     (9999, [[1, -2], [12, 3, -45], [-7, 120], [], [5]], [b'c sample file', b'c'], b'c 1 2 0', b'c end'),
     (120, [[1, -2], [12, 3, -45], [-7, 120]], [], None, None),
-    (1000000, [[31, 4, -15], [9, -2, 6]], ['c résumé 日本'.encode('utf-8')], None, 'c fin é'.encode('utf-8')),
+    (20000, [[31, 4, -15], [9, -2, 6]], ['c résumé 日本'.encode('utf-8')], None, 'c fin é'.encode('utf-8')),
 ]
 
 
@@ -1792,7 +1791,7 @@ def enum_reader_bytes(tier):
 
 _S_BLIT = st.builds(lambda v, s: v * s, st.one_of(st.integers(1, 9), st.integers(10, 99), st.integers(100, 140)), _S_SIGN)
 _S_BCLAUSES = st.lists(st.lists(_S_BLIT, max_size=4), min_size=1, max_size=5)
-_S_BN = st.sampled_from(['tight', 'tight', 99, 9999, 150000, 10 ** 9])
+_S_BN = st.sampled_from(['tight', 'tight', 99, 9999, 20000])
 _S_BCOMMENT = st.sampled_from([b'c', b'c note', b'c p cnf 3 4', b'c 1 2 0', 'c café'.encode('utf-8'),
                                'c 日本語'.encode('utf-8'), b'c\tx', b'c  two  blanks'])
 _S_BHEAD = st.lists(_S_BCOMMENT, max_size=2)
@@ -1824,10 +1823,23 @@ _S_MODE = st.sampled_from(['parse'] * 12 + ['strio'] * 12 + ['file'] * 4 + ['cli
 _ST_READER_BYTES = _st_reader_bytes()
 
 
+_ST_READER_TEXTS = st.tuples(rd.st_reader_text(), _S_MODE).map(
+    lambda p: {'text': p[0][0], 'mode': p[1], 'origin': p[0][1]})
+_S_SIX = st.sampled_from(list(range(12)))
+
+
+@st.composite
+def _st_reader(draw):
+    # (one_of() drops repeated arguments: the share of the byte cases is drawn instead; 1 in 12 draws gives about
+    # one byte case in five, the text cases being discarded as duplicates more often)
+    return draw(_ST_READER_BYTES if draw(_S_SIX) == 11 else _ST_READER_TEXTS)
+
+
+_ST_READER = _st_reader()
+
+
 def strat_reader():
-    texts = st.tuples(rd.st_reader_text(), _S_MODE).map(
-        lambda p: {'text': p[0][0], 'mode': p[1], 'origin': p[0][1]})
-    return st.one_of(texts, texts, texts, texts, texts, _ST_READER_BYTES)
+    return _ST_READER
 
 
 def _corpus():
@@ -1977,7 +1989,7 @@ SUBCHECKS = [
     SubCheck('reader', run_reader, strategy=strat_reader, enumerate_cases=enum_reader,
              quick=20000, thorough=600000,
              rule="grammar of DIMACS-like documents (n<=6, <=6 clauses, comments anywhere, blank lines, several clauses per line, clauses spanning lines, tabs, CRLF) composed with 0..2 of 17 mutators, raw st.text(), text over the alphabet 'pcnf 0123-+_\\n\\t\\r'; every text through parse_dimacs, CNF.from_file(StringIO), CNF.from_file(filename), cnfgen dimacs <file>|<stdin>; plus the texts of tests/test_dimacsparser.py and 41 corner texts x 5 modes. Oracle: reference interpretation (accept => identical formula; reject => ValueError; gray => ValueError or a permissive reading). Non-trivial: problem line and >=1 clause token. "
-                  "BYTES (1/6 of the generated cases and an enumerated grid, cases with 'data'): FILES THAT ARE NOT CLEAN UTF-8 TEXT - a well formed document (1..5 clauses of width 0..4 over literals of 1..3 digits, declared variables = the largest one or 99 / 9999 / 150000 / 10^9 so that two glued neighbours stay in range, 0..2 comment lines in front, optional comment between and after the clauses, ASCII or UTF-8 comments, LF or CRLF) into which 1..2 pieces out of 36 are put: bytes that are not UTF-8 (0xff 0xfe 0x80 0x9f 0xbf 0xa0 0x85 0xb2 0xc0 0xc3, Latin-1 accented letters, sequences cut after 1, 2, 3 of their bytes, an encoded surrogate, overlong forms, a 5-byte form, a code beyond U+10FFFF), byte order marks (UTF-8, UTF-16 LE/BE), NUL bytes, and valid but odd UTF-8 (e-acute, NBSP, NEL, zero width space, fullwidth and Arabic-Indic digits, U+2028, an emoji, DEL, ESC) at 22 kinds of position: start of the file, inside / right after the 'c' of / in front of / at the end of a comment line, in the problem line (in front, inside 'cnf', between the digits of n, instead of the blank between n and m, in m, at the end), in a clause line (between two digits of a literal, between sign and digits, glued in front of / behind a literal, instead of the blank between two literals, as a token of its own, in front of / behind the closing 0, instead of the line end), at the end of the file with and without the final newline; whole documents encoded in UTF-8, UTF-8 with BOM, UTF-16 (BOM, LE, BE), UTF-32, Latin-1, cp1252, padded with NULs, cut inside the last multi-byte character. Entry points: BY NAME CNF.from_file(name), cli(['cnfgen','-q','dimacs',name]), cnfshuffle's cli(['-q','-p','-v','-c','-i',name]) (nothing is shuffled), the main() of both tools (exit status, stdout, stderr), and the real programs in a process of their own under a UTF-8 and an ASCII locale; HANDLES the caller opened with 14 encoding/error-handler pairs (utf-8 strict|surrogateescape|ignore|replace|backslashreplace, latin-1 strict|ignore, ascii strict|surrogateescape|ignore|replace, utf-8-sig, cp1252, utf-16) x newline None|''|'\\n', given to CNF.from_file(handle), parse_dimacs(handle) or standing in for sys.stdin of CNF.from_file(), cnfgen dimacs, cnfshuffle; the real programs with the bytes on stdin under PYTHONIOENCODING latin-1 / utf-8. Enumerated: 36 pieces x 22 positions on one document (thorough: 3 documents x LF/CRLF x 3 places per kind x all entry points x all 14 handles), 11 whole-document encodings x all entry points x 14 handles, 8 (thorough 504) runs of the real programs. "
+                  "BYTES (about 1/5 of the generated cases and an enumerated grid, cases with 'data'): FILES THAT ARE NOT CLEAN UTF-8 TEXT - a well formed document (1..5 clauses of width 0..4 over literals of 1..3 digits, declared variables = the largest one or 99 / 9999 / 20000 so that two glued neighbours stay in range, 0..2 comment lines in front, optional comment between and after the clauses, ASCII or UTF-8 comments, LF or CRLF) into which 1..2 pieces out of 36 are put: bytes that are not UTF-8 (0xff 0xfe 0x80 0x9f 0xbf 0xa0 0x85 0xb2 0xc0 0xc3, Latin-1 accented letters, sequences cut after 1, 2, 3 of their bytes, an encoded surrogate, overlong forms, a 5-byte form, a code beyond U+10FFFF), byte order marks (UTF-8, UTF-16 LE/BE), NUL bytes, and valid but odd UTF-8 (e-acute, NBSP, NEL, zero width space, fullwidth and Arabic-Indic digits, U+2028, an emoji, DEL, ESC) at 22 kinds of position: start of the file, inside / right after the 'c' of / in front of / at the end of a comment line, in the problem line (in front, inside 'cnf', between the digits of n, instead of the blank between n and m, in m, at the end), in a clause line (between two digits of a literal, between sign and digits, glued in front of / behind a literal, instead of the blank between two literals, as a token of its own, in front of / behind the closing 0, instead of the line end), at the end of the file with and without the final newline; whole documents encoded in UTF-8, UTF-8 with BOM, UTF-16 (BOM, LE, BE), UTF-32, Latin-1, cp1252, padded with NULs, cut inside the last multi-byte character. Entry points: BY NAME CNF.from_file(name), cli(['cnfgen','-q','dimacs',name]), cnfshuffle's cli(['-q','-p','-v','-c','-i',name]) (nothing is shuffled), the main() of both tools (exit status, stdout, stderr), and the real programs in a process of their own under a UTF-8 and an ASCII locale; HANDLES the caller opened with 14 encoding/error-handler pairs (utf-8 strict|surrogateescape|ignore|replace|backslashreplace, latin-1 strict|ignore, ascii strict|surrogateescape|ignore|replace, utf-8-sig, cp1252, utf-16) x newline None|''|'\\n', given to CNF.from_file(handle), parse_dimacs(handle) or standing in for sys.stdin of CNF.from_file(), cnfgen dimacs, cnfshuffle; the real programs with the bytes on stdin under PYTHONIOENCODING latin-1 / utf-8. Enumerated: 36 pieces x 22 positions on one document (thorough: 3 documents x LF/CRLF x 3 places per kind x all entry points x all 14 handles), 11 whole-document encodings x all entry points x 14 handles, 8 (thorough 504) runs of the real programs. "
                   "Oracle BY NAME: the reader chooses the decoding; it either refuses the file (ValueError / CLIError / non-zero exit with a message and no traceback) or returns a reading that the reference interpretation allows for the text which a STRICT decoder of utf-8, utf-8-sig, latin-1, cp1252, ascii, the locale's encoding (utf-16/32 when the file starts with their BOM) makes of the bytes - so bytes are never dropped with the neighbouring digits glued together, no clause and no variable count is made up; a file that is valid DIMACS text in the encoding the entry point uses (UTF-8 for the library, the locale's for the tools) may not be refused. Oracle HANDLE: the caller chose the decoding; the reference interpretation of the text the codec's incremental decoder yields (accept => identical formula, reject => ValueError, gray => either); when that decoder raises, the reader must refuse with ValueError/CLIError",
              required_labels=['accepted', 'rejected-range', 'rejected-count', 'rejected-open', 'rejected-syntax', 'gray',
                               'gray-returned', 'mode-parse', 'mode-strio', 'mode-file', 'mode-cli-file', 'mode-cli-stdin',
